@@ -24,7 +24,7 @@ class Conn:
     def __init__(self, world, owner, vsock, index, script):
         self.world = world
         self.owner = owner
-        self.vsock = vsock
+        self.vsock = None   # (no back reference: the tool's references alone decide the socket's lifetime)
         self.index = index                 # index among this peer's connections
         self.inbuf = bytearray()
         self.raw_in = bytearray()          # everything the tool ever sent on this connection
